@@ -65,6 +65,10 @@ def configs(tier, seed):
                  "subs": [{"aw": 2, "feat": ["err"], "sparse": False, "name": "hi", "addr": 0x80},
                           {"aw": 3, "feat": [], "sparse": False, "name": "lo", "addr": 0x20},
                           {"aw": 0, "feat": [], "sparse": False, "name": None, "addr": 0xfc}]})
+    # explicit addresses in descending order, the last one at address 0
+    cfgs.append({"aw": 6, "dw": 8, "g": 8, "feat": [], "align": 0,
+                 "subs": [{"aw": 3, "feat": [], "sparse": False, "name": "hi", "addr": 0x20}, {"aw": 2, "feat": [], "sparse": False, "name": None, "addr": 0x10},
+                          {"aw": 3, "feat": [], "sparse": False, "name": "lo", "addr": 0x0}]})
     # no subordinate at all
     cfgs.append({"aw": 3, "dw": 8, "g": 8, "feat": ALLF, "align": 0, "subs": []})
     # very wide address buses: small windows at high addresses with low bits set (window starts with more than 53 significant bits)
@@ -285,6 +289,9 @@ def check_config(ctx, cfg):
         # alignment exceeds the window's address width, add_window() pads the *allocation* [start, stop); the padding
         # belongs to no subordinate (decode_address() maps it to nothing), so it must select nobody.
         stop = min(stop, start + (1 << sb.memory_map.addr_width) // ratio)
+        # a window DECLARED at an explicit address sits there (also at address 0)
+        if sc.get("addr") is not None:
+            ctx.prove("cyc_select", z3.BoolVal(start == sc["addr"]), known_key=kk("cyc_select"))
         m = z3.And(z3.UGE(a_map, z3.BitVecVal(start, W)), z3.ULT(a_map, z3.BitVecVal(stop, W)))
         match.append(m)
         ctx.prove("cyc_select", V(sb.cyc) == z3.If(z3.And(I(bus.cyc) == 1, m), one, zero), frames=[f0], known_key=kk("cyc_select"))
